@@ -358,6 +358,17 @@ fn build_config(desc: &Value, env: &mut Env) -> Result<Config, String> {
             riti_config_set_ansi_encoding(ptr, b(&o, "ansi", false));
         }
         riti_config_set_smart_quote(ptr, b(&o, "smart_quote", true));
+        // "_then": further setter calls on the same object, in the order given: [["english", true], ["ansi", false], ...]
+        if let Some(h) = o.get("_then").and_then(|x| x.as_array()) {
+            for call in h {
+                let v = call[1].as_bool().unwrap_or(false);
+                match call[0].as_str().unwrap_or("") {
+                    "english" => riti_config_set_suggestion_include_english(ptr, v),
+                    "ansi" => riti_config_set_ansi_encoding(ptr, v),
+                    _ => {}
+                }
+            }
+        }
     }
     let cfg = unsafe { (*ptr).clone() };
     unsafe { riti_config_free(ptr) };
